@@ -159,14 +159,16 @@ PROPS = {
             "addressing: _defaultGraph returns ctx.graph when it is a plain Graph and the dataset's default graph otherwise "
             "(never the union); _graphOrDefault maps DEFAULT to that graph and a name to get_context(name); INSERT DATA only "
             "performs `+=`, DELETE DATA only `-=`, each on the real default graph and on get_context(g) for the request's "
-            "graph names and nowhere else; ADD / COPY / MOVE are no-ops when source and target are one graph, otherwise "
+            "graph names and nowhere else; _graphAll maps DEFAULT to the real default graph only, NAMED to every other graph "
+            "of the dataset, ALL to every graph, a name to that graph, and CLEAR empties exactly those graphs and "
+            "adds nothing (so CLEAR DEFAULT leaves the named graphs alone); ADD / COPY / MOVE are no-ops when source and target are one graph, otherwise "
             "only the target receives triples and exactly {} / {target} / {target, source} are cleared (proved, ghost sets "
             "of written graph objects)",
         ],
         "clauses_not_decided": [
             "which triples the instantiated templates contain (_fillTemplate: unbound / illegal terms skipped, fresh blank "
-            "nodes per solution), which graph a template of DELETE/INSERT addresses (WITH, GRAPH ?g), DELETE WHERE, CLEAR, "
-            "DROP (_graphAll), the set effect of the operations on triples and the order of operations in a request: "
+            "nodes per solution), which graph a template of DELETE/INSERT addresses (WITH, GRAPH ?g), DELETE WHERE, DROP "
+            "(store.remove_graph), the set effect of the operations on triples and the order of operations in a request: "
             "bounded stand-in only (reference implementation of the Update semantics on a dict model of the dataset)",
             "USING / USING NAMED / LOAD (external documents)",
         ],
